@@ -29,6 +29,7 @@ type Loaded struct {
 	fnInfos          map[*ssa.Function]*fnInfo
 	inlinableCache   map[*ssa.Function]bool
 	immutableGlobals map[string]bool
+	nonNilGlobals    map[string]bool
 	repo             string
 	loadS            float64
 }
@@ -65,7 +66,7 @@ func loadRepo(repo string, patterns []string) (*Loaded, error) {
 		}
 	}
 	L := &Loaded{fset: prog.Fset, pkgs: pkgs, prog: prog, byPath: map[string]*packages.Package{}, fnInfos: map[*ssa.Function]*fnInfo{},
-		inlinableCache: map[*ssa.Function]bool{}, immutableGlobals: map[string]bool{}, repo: repo}
+		inlinableCache: map[*ssa.Function]bool{}, immutableGlobals: map[string]bool{}, nonNilGlobals: map[string]bool{}, repo: repo}
 	packages.Visit(pkgs, nil, func(p *packages.Package) { L.byPath[p.PkgPath] = p })
 	L.computeImmutableGlobals()
 	return L, nil
@@ -130,6 +131,20 @@ func (L *Loaded) computeImmutableGlobals() {
 			}
 		}
 		if fn.Name() == "init" {
+			// error values built by fmt.Errorf / errors.New in package initialisation are non-nil
+			for _, b := range fn.Blocks {
+				for _, ins := range b.Instrs {
+					if s, ok := ins.(*ssa.Store); ok {
+						if g, ok := s.Addr.(*ssa.Global); ok {
+							if c, ok := s.Val.(*ssa.Call); ok {
+								if f := c.Call.StaticCallee(); f != nil && (f.String() == "fmt.Errorf" || f.String() == "errors.New") {
+									L.nonNilGlobals[g.Pkg.Pkg.Path()+"."+g.Name()] = true
+								}
+							}
+						}
+					}
+				}
+			}
 			continue
 		}
 		for _, b := range fn.Blocks {
